@@ -429,3 +429,107 @@ func RFixedDistSib(c *core.Ctx) {
 		}
 	}
 }
+
+// ---------------------------------------------------------------------------
+// R-FFFDFILTER: byte-level literal search and U+FFFD.
+// Every decoder of the module turns an invalid input byte into U+FFFD, so the
+// interpreter lets a literal U+FFFD of the pattern match it.  A filter that
+// searches the raw string for the literal's UTF-8 bytes (strings.Index,
+// Contains, HasPrefix … on a string needle) finds only the three-byte
+// encoding of a real U+FFFD and reports "no match possible" for such inputs.
+// A constructor of a raw-string filter that takes a string literal therefore
+// has to refuse literals containing utf8.RuneError.  (Searches by rune —
+// IndexRune, IndexAny, ContainsRune — do match invalid bytes and need no test.)
+// ---------------------------------------------------------------------------
+
+func RFFFDFilter(c *core.Ctx) {
+	c.Rule("R-FFFDFILTER", "every function of package regexp2 that returns a StringPrefixFilter and receives the literal to search for as a string, a []string or a *syntax.LiteralAfterLoop (whose String is searched bytewise) mentions utf8.RuneError in a test that leads to `return nil`: a literal containing U+FFFD must be matched against decoded input, where invalid bytes are U+FFFD as well", 3)
+	p := c.P
+	pk := p.Pkg("")
+	info := pk.TypesInfo
+	spf, _ := pk.Types.Scope().Lookup("StringPrefixFilter").(*types.TypeName)
+	if spf == nil {
+		c.Anchor("regexp2.StringPrefixFilter")
+		return
+	}
+	n := 0
+	for _, fd := range p.FuncDecls(pk) {
+		if fd.Body == nil || fd.Recv != nil || p.IsTestFile(fd.Pos()) || fd.Type.Results == nil || len(fd.Type.Results.List) != 1 {
+			continue
+		}
+		if info.TypeOf(fd.Type.Results.List[0].Type) != spf.Type() {
+			continue
+		}
+		literalParam := ""
+		for _, f := range fd.Type.Params.List {
+			t := info.TypeOf(f.Type)
+			isLit := false
+			switch u := t.Underlying().(type) {
+			case *types.Basic:
+				isLit = u.Info()&types.IsString != 0
+			case *types.Slice:
+				if b, ok := u.Elem().Underlying().(*types.Basic); ok && b.Info()&types.IsString != 0 {
+					isLit = true
+				}
+			case *types.Pointer:
+				if _, nm := core.NamedOf(t); nm == "LiteralAfterLoop" {
+					isLit = true
+				}
+			}
+			if isLit && len(f.Names) > 0 {
+				literalParam = f.Names[0].Name
+			}
+		}
+		if literalParam == "" {
+			continue
+		}
+		name := core.DeclName(pk, fd)
+		n++
+		c.Visit(name)
+		// a top-level `if … utf8.RuneError … { return nil }` (possibly inside a range over the literals), before the closure is built
+		found := false
+		var scan func(list []ast.Stmt)
+		scan = func(list []ast.Stmt) {
+			for _, st := range list {
+				switch x := st.(type) {
+				case *ast.IfStmt:
+					mentions := false
+					ast.Inspect(x.Cond, func(y ast.Node) bool {
+						if se, ok := y.(*ast.SelectorExpr); ok && se.Sel.Name == "RuneError" {
+							if obj := info.ObjectOf(se.Sel); obj != nil && obj.Pkg() != nil && obj.Pkg().Path() == "unicode/utf8" {
+								mentions = true
+							}
+						}
+						if call, ok := y.(*ast.CallExpr); ok {
+							if cal := core.Callee(info, call); cal != nil && cal.Pkg() == pk.Types {
+								// a helper of this package that itself tests for RuneError
+								if d, _ := p.DeclOf(cal); d != nil && d.Body != nil {
+									ast.Inspect(d.Body, func(z ast.Node) bool {
+										if se, ok := z.(*ast.SelectorExpr); ok && se.Sel.Name == "RuneError" {
+											mentions = true
+										}
+										return true
+									})
+								}
+							}
+						}
+						return true
+					})
+					if mentions && len(x.Body.List) > 0 && core.IsReturn(x.Body.List[len(x.Body.List)-1]) {
+						found = true
+					}
+				case *ast.RangeStmt:
+					scan(x.Body.List)
+				case *ast.ForStmt:
+					scan(x.Body.List)
+				}
+			}
+		}
+		scan(fd.Body.List)
+		c.Check(found, name+" / refuses literals containing U+FFFD", fd.Pos(),
+			"the filter built from %s searches the raw bytes of the input for the literal's UTF-8 encoding; an invalid byte of the input decodes to U+FFFD and matches a literal U+FFFD in the interpreter, but is not found by the byte search, so the string entry points answer 'no match' where the rune entry points match", literalParam)
+	}
+	if n == 0 {
+		c.Anchor("constructors of StringPrefixFilter that take a string literal")
+	}
+}
